@@ -160,8 +160,40 @@ def sparse_nesting_family():
     return out
 
 
+def builtin_then_merge_family():
+    """a diamond in which the FIRST path to an import `a` hands part of it to a built-in (fn::toJSON / fn::toString /
+    fn::join / an interpolation of ${imports.a...}) and the SECOND path merges `a` over a sibling `z` that adds keys one or
+    two levels below the referenced value: what the built-in left on the shared values of `a` must not show in the second
+    copy (learnt from seeded change C10-l: memoised key sets carried into copies)"""
+    out = []
+    aobj = ("obj", [("inner", ("obj", [("k", ("num", "1")), ("deep", ("obj", [("dk", ("num", "1"))]))])), ("s", ("str", "v"))])
+    zobj = ("obj", [("inner", ("obj", [("zk", ("num", "2")), ("deep", ("obj", [("dz", ("num", "2"))]))])), ("zs", ("str", "w"))])
+    ref = lambda *names: ("sym", [("name", "imports"), ("name", "a")] + [("name", n) for n in names])
+    uses = [("tojson", ref("obj")), ("tojson", ref()), ("tostring", ref("obj", "inner")),
+            ("join", ("str", ","), ("arr", [("tojson", ref("obj", "inner")), ref("obj", "s")])),
+            G.norm_interp([("<", [("name", "imports"), ("name", "a"), ("name", "obj"), ("name", "s")]), (">", None)]),
+            ("obj", [("w", ("tojson", ref("obj", "inner", "deep")))]), ref("obj")]
+    for ui, use in enumerate(uses):
+        for corder in (["z", "a"], ["a", "z"]):
+            for rorder in (["b", "c"], ["c", "b"], ["b", "c", "a"]):
+                envs = {"a": {"imports": [], "values": [("obj", aobj)]},
+                        "z": {"imports": [], "values": [("obj", zobj)]},
+                        "b": {"imports": [("a", True)], "values": [("j", use)]},
+                        "c": {"imports": [(m, True) for m in corder], "values": []}}
+                rv, seen = [], []
+                for m in sorted(set(rorder)):
+                    rv.append(("seen_" + m, ("sym", [("name", "imports"), ("name", m)])))
+                    seen.append(("seen_" + m, m))
+                envs["root"] = {"imports": [(m, True) for m in rorder], "values": rv}
+                c = G.case_from_graph(envs, "root")
+                c["provs"] = {}
+                c["seen"] = seen
+                out.append(c)
+    return out
+
+
 def gen(rng, tier):
-    cases = alias_family() + multi_ref_family() + sparse_nesting_family()
+    cases = alias_family() + multi_ref_family() + sparse_nesting_family() + builtin_then_merge_family()
     n = 2500 if tier == "thorough" else 300
     for i in range(n):
         r = rng.fork("g%d" % i)
